@@ -369,8 +369,8 @@ def fam_conv(mi, rnd, tier):
         if po is None:
             continue
         ops = [('dnew', rnd.randint(1, 9))] + po
-        if mi.specs:
-            ops.append(('mut', rnd.choice(mi.specs)[0], rnd.randint(1, 99)))
+        for (x, _) in mi.specs:      # make every live slot (leaf and superstate data) differ from its default
+            ops.append(('set', x, rnd.randint(1, 99)))
         order = list(mi.leaves)
         rnd.shuffle(order)
         for s in order:
@@ -703,6 +703,7 @@ def fixtures():
                 ('super', 'Deep', None, [('super', 'Deeper', None, [('leaf', 'X1', None)]), ('leaf', 'Zed', None)]),
             ]),
             ('leaf', 'Done', None),
+            ('leaf', 'Flight', 'D3'),      # `InFlight` ends in `_flight`: slot selection must go by state, not by name suffix
         ]
         pl = 'P'
         evs = [
@@ -721,6 +722,7 @@ def fixtures():
             # event name with a digit-led word and single letters
             _ev('go_2_x', _tr(['Outer'], 'Deep', around=['wg1', 'wg2']), payload=pl, guards=['gg2', 'gg1']),
             _ev('enable_2fa', _tr(['Done'], 'Inner')),
+            _ev('land', _tr(['Inner', 'Done'], 'Flight'), _tr(['Flight'], 'Inner', after=['al1'])),
         ]
         d = [('name', 'M'), ('initial', 'Idle')]
         if concrete:
@@ -739,7 +741,7 @@ def fixtures():
         res = []
         for it in items:
             if it[0] == 'super':
-                res.append(('super', it[1], 'D3' if it[1] == 'Inner' else it[2], with_super_data(it[3])))
+                res.append(('super', it[1], {'Inner': 'D3', 'Outer': 'D2'}.get(it[1], it[2]), with_super_data(it[3])))
             else:
                 res.append(it)
         return res
